@@ -138,7 +138,8 @@ def case_shape(case: dict) -> str:
 
 
 def _work(pid: str, tier: str, seeds: list[int], findings: list[dict],
-          explicit_cases: list | None = None, check_det: int = 0) -> dict:
+          explicit_cases: list | None = None, check_det: int = 0,
+          collect: bool = False) -> dict:
     faulthandler.enable()
     faulthandler.dump_traceback_later(900, exit=True)
     prof = _load_profile(pid)
@@ -189,6 +190,11 @@ def _work(pid: str, tier: str, seeds: list[int], findings: list[dict],
                                                     'property': f['property']})
             ent['n'] += 1
         if v is not None:
+            if collect:
+                out.setdefault('collected', {}).setdefault(
+                    signature(v), {'violation': v, 'case': case, 'n': 0})
+                out['collected'][signature(v)]['n'] += 1
+                continue
             out['violation'] = {'violation': v, 'case': case,
                                 'digest': res['digest']}
             break
@@ -388,6 +394,9 @@ def main(argv=None) -> int:
                     min(16, os.cpu_count() or 1))
     ap.add_argument('--no-evidence', action='store_true')
     ap.add_argument('--max-cases', type=int, default=0)
+    ap.add_argument('--collect', action='store_true',
+                    help='development aid: do not stop at the first '
+                    'violation, list every distinct signature')
     args = ap.parse_args(argv)
     _reexec_if_needed()
     sys.path.insert(0, ROOT)
@@ -419,6 +428,7 @@ def _search(pid: str, args) -> int:
     violation = None
     harness_error = None
     exhaustive = None
+    collected: dict = {}
     enum_cases = list(prof.enumerate(tier))
     enum_total = len(enum_cases)
     workers = max(1, args.workers)
@@ -445,6 +455,10 @@ def _search(pid: str, args) -> int:
             harness_error = res['harness_error']
         if res.get('violation') and violation is None:
             violation = res['violation']
+        for sig, ent in (res.get('collected') or {}).items():
+            cur = collected.setdefault(sig, ent)
+            if cur is not ent:
+                cur['n'] += ent['n']
 
     with ProcessPoolExecutor(max_workers=workers, mp_context=ctx) as pool:
         futures = set()
@@ -456,12 +470,13 @@ def _search(pid: str, args) -> int:
             if enum_pos < enum_total:
                 chunk = enum_cases[enum_pos:enum_pos + prof.batch]
                 enum_pos += len(chunk)
-                fut = pool.submit(_work, pid, tier, [], findings, chunk, 0)
+                fut = pool.submit(_work, pid, tier, [], findings, chunk, 0,
+                                  args.collect)
                 fut.is_enum = len(chunk)
             else:
                 seeds = [master.getrandbits(48) for _ in range(prof.batch)]
                 fut = pool.submit(_work, pid, tier, seeds, findings, None,
-                                  1 if tier == 'quick' else 0)
+                                  1 if tier == 'quick' else 0, args.collect)
                 fut.is_enum = 0
             futures.add(fut)
 
@@ -500,6 +515,21 @@ def _search(pid: str, args) -> int:
 
     rc = 0
     replay_path = None
+    if args.collect:
+        os.makedirs(os.path.join(ROOT, 'replays'), exist_ok=True)
+        for i, (sig, ent) in enumerate(sorted(collected.items())):
+            path = os.path.join(ROOT, 'replays', '%s-collect-%d.json'
+                                % (pid, i))
+            with open(path, 'w') as fp:
+                json.dump({'property': pid, 'signature': sig,
+                           'violation': _jsonable(ent['violation']),
+                           'case': ent['case'], 'digest': '', 'trace': []},
+                          fp, default=_default)
+            print('COLLECTED x%d %s\n    %s\n    %s' % (
+                ent['n'], sig, ent['violation']['detail'][:200], path))
+        print('%d cases, %d distinct signatures' % (agg['cases'],
+                                                    len(collected)))
+        return 1 if collected else 0
     if violation is not None:
         v = violation['violation']
         want = signature(v)
